@@ -37,6 +37,7 @@ ASSUMPTIONS = [
     "steps after numerical exhaustion of the candidates are not judged (known finding K2 of C01)",
 ]
 RULE = RULE + " " + forms.RULE_SUFFIX
+RULE = RULE + " " + 'Two-link chains with an explicit switching point: the first link runs with another one (1e-6 / 1.0 / 0.5); a cold refit with an illegal switching point is refused between links.'
 
 KINDS = ("clustered", "clustered", "clustered", "uniform", "gauss", "dup_rows", "lattice")
 EXPLICIT = (1e-9, 0.01, 0.1, 0.5, 0.99, 1.0)
